@@ -119,7 +119,7 @@ def rule_eligible_only(ctx):
             if s["k"] == "assign" and s["p"]["l"] == lw_local and not s["p"].get("pr") and Tn.rvalue(s["r"]) != ("const", 0):
                 adds.append(bi)
     from .c07 import loop_head
-    head = loop_head(ctx, n)
+    head = loop_head(ctx, n, target=adds) if adds else None
     okw = False
     if adds and head is not None:
         names, tab = W.table({"add": adds}, start=head)
